@@ -560,6 +560,29 @@ pub unsafe extern "C" fn accept(fd: c_int, addr: *mut libc::sockaddr, len: *mut 
     f(fd, addr, len)
 }
 
+// ---------------------------------------------------------------------------------------
+// wall clock: CLOCK_REALTIME is shifted by a settable number of seconds (the clock of a real machine is
+// stepped by NTP or by hand, forwards and backwards); the monotonic clocks are left alone.
+
+static CLOCK_SKEW_S: std::sync::atomic::AtomicI64 = std::sync::atomic::AtomicI64::new(0);
+
+pub fn set_clock_skew(secs: i64) {
+    CLOCK_SKEW_S.store(secs, std::sync::atomic::Ordering::SeqCst);
+}
+
+#[no_mangle]
+pub unsafe extern "C" fn clock_gettime(clk: libc::clockid_t, ts: *mut libc::timespec) -> c_int {
+    let f = real!("clock_gettime", unsafe extern "C" fn(libc::clockid_t, *mut libc::timespec) -> c_int);
+    let r = f(clk, ts);
+    if r == 0 && clk == libc::CLOCK_REALTIME && !ts.is_null() {
+        let k = CLOCK_SKEW_S.load(std::sync::atomic::Ordering::Relaxed);
+        if k != 0 {
+            (*ts).tv_sec += k as libc::time_t;
+        }
+    }
+    r
+}
+
 /// Must be referenced from every binary so that this object is linked in.
 pub fn init() {
     with(|_| ());
